@@ -565,13 +565,14 @@ def rule_lookup_keeps_hit(prog, fixture=False):
                 if b.get("cond") is None or len(cfg.succ[p_]) != 2 or cfg.succ[p_][0] == cfg.succ[p_][1]:
                     return False
                 cond = fn.nodes.get(b["cond"])
-                cs = strip_all(cond)
-                if cs is not None and cs.get("k") == "BinaryOperator" and cs.get("op") in ("&&", "||"):
-                    cond = cs["c"][1]
                 outcome = cfg.succ[p_][0] == s_
                 for f in flow.atomise(cond, outcome):
-                    if f[0] == "T" and f[2] is False and (strip_all(f[1]) or {}).get("d") == d:
-                        return True
+                    if f[0] == "T" and f[2] is False:
+                        a_ = strip_all(f[1])
+                        # `result`, or result.has_value() / operator bool spelled out
+                        if a_ is not None and (a_.get("d") == d or any(y.get("k") == "DeclRefExpr" and y.get("d") == d for y in walk(a_))
+                                               and a_.get("k") in ("CXXMemberCallExpr", "DeclRefExpr")):
+                            return True
                 return False
             at = flow.must_hold_at(fn, transfer, edge_gen)
             for i, n in enumerate(sites):
